@@ -80,3 +80,81 @@ func VH_C05_ArrayLeafSplit() {
 	vhAssert(right.header.slabID != left.header.slabID, "split: fresh id")
 	vhReach("split-done")
 }
+
+func vhCheckLeafPair(left, right *ArrayDataSlab, total int, totalSize uint32, what string) {
+	nl, nr := len(left.elements), len(right.elements)
+	vhAssert(nl+nr == total, what+": element count preserved")
+	vhAssert(left.header.count == uint32(nl) && right.header.count == uint32(nr), what+": header counts")
+	vhAssert(left.header.size == vhArrayLeafSize(left), what+": left size = prefix + sum")
+	vhAssert(right.header.size == vhArrayLeafSize(right), what+": right size = prefix + sum")
+	vhAssert(left.header.size+right.header.size == totalSize, what+": total size preserved")
+	vhAssert(left.header.size >= minThreshold && left.header.size <= maxThreshold, what+": left within band")
+	vhAssert(right.header.size >= minThreshold && right.header.size <= maxThreshold, what+": right within band")
+	for i, e := range left.elements {
+		vhAssert(e.(vElem).tag == uint64(i), what+": left order")
+	}
+	for i, e := range right.elements {
+		vhAssert(e.(vElem).tag == uint64(nl+i), what+": right order")
+	}
+}
+
+// Rebalance / merge of two sibling leaves after one of them underflowed by at
+// most one element (what a Remove or a shrinking Set leaves behind), for every
+// legal slab size: if the sibling can lend, both end inside the band;
+// otherwise the merged leaf does not overflow.
+//
+//vh:prop C05
+//vh:param n 4 8
+func VH_C05_ArrayLeafRebalance() {
+	nmax := vhParam("n", 4)
+	T := vhRange32("T", 256, 32768)
+	vhSetThreshold(T)
+	nl := 1 + vhChoose("nl", nmax)
+	nr := 1 + vhChoose("nr", nmax)
+	left := vhArrayLeaf(vhSlabID(1, 1), nl, 0)
+	right := vhArrayLeaf(vhSlabID(1, 2), nr, uint64(nl))
+	left.next = right.header.slabID
+	right.next = vhSlabID(1, 99)
+	total := nl + nr
+	totalSize := left.header.size + right.header.size
+	leftUnder := vhChoose("underflow", 2) == 0
+	under, other := left, right
+	if !leftUnder {
+		under, other = right, left
+	}
+	vhAssume(under.header.size < minThreshold)
+	vhAssume(under.header.size+maxInlineArrayElementSize >= minThreshold)
+	vhAssume(other.header.size >= minThreshold && other.header.size <= maxThreshold)
+	underflowSize, isUnder := under.IsUnderflow()
+	vhAssert(isUnder, "IsUnderflow agrees with the band")
+	vhAssert(underflowSize == minThreshold-under.header.size, "underflow size")
+	var canLend bool
+	if leftUnder {
+		canLend = right.CanLendToLeft(underflowSize)
+	} else {
+		canLend = left.CanLendToRight(underflowSize)
+	}
+	if canLend {
+		var err error
+		if leftUnder {
+			err = left.BorrowFromRight(right)
+		} else {
+			err = left.LendToRight(right)
+		}
+		vhAssert(err == nil, "rebalance: no error")
+		vhCheckLeafPair(left, right, total, totalSize, "rebalance")
+		vhReach("rebalanced")
+		return
+	}
+	err := left.Merge(right)
+	vhAssert(err == nil, "merge: no error")
+	vhAssert(len(left.elements) == total, "merge: element count")
+	vhAssert(left.header.count == uint32(total), "merge: header count")
+	vhAssert(left.header.size == vhArrayLeafSize(left), "merge: size = prefix + sum")
+	vhAssert(left.header.size <= maxThreshold, "merge: merged leaf does not overflow")
+	vhAssert(left.next == vhSlabID(1, 99), "merge: next chain")
+	for i, e := range left.elements {
+		vhAssert(e.(vElem).tag == uint64(i), "merge: order")
+	}
+	vhReach("merged")
+}
